@@ -87,7 +87,9 @@ Definition sink_write (junk : Z -> Z) (s : sink) (d : list Z) (flt : option Z) :
       else (mkSink (DFile nm f') (k_bb s) (k_in s) (k_out s), E_FATAL)
   end.
 
-(* sc_io_sink_complete; the option is what is stored through bytes_in / bytes_out *)
+(* sc_io_sink_complete; the option is what is stored through bytes_in / bytes_out - each value only if its pointer
+   is not NULL; the counters restart whichever pointers are passed (the `C:<mask>` operation of the correspondence
+   run calls the real function with every combination of NULL pointers against this definition) *)
 Definition sink_complete (s : sink) (flushfail : bool) : sink * Z * option (Z * Z) :=
   let done := (mkSink (k_dev s) (k_bb s) 0 0, E_NONE, Some (k_in s, k_out s)) in
   match k_dev s with
